@@ -17,7 +17,9 @@ def runBodyL (l : M Unit) : M Unit := do
 
 def runLoopL (l : M Unit) : M Unit := tryC (do runBodyL l; selClose) runFinally
 
-def afterConnectL (l : M Unit) (proxy : Bool) : M Unit := do
+/-- `afterConnect` with the loop abstracted; `sel = false`, `l = throwE (.other "error")` is
+    `afterConnectNoSel` (the selector's constructor raised: `selector` stays `None`) -/
+def afterConnectL (l : M Unit) (proxy : Bool) (sel : Bool) : M Unit := do
   modS fun s => { s with sockOpen := true }
   let s ← getS
   let r ← write s.cfg.request
@@ -26,7 +28,7 @@ def afterConnectL (l : M Unit) (proxy : Bool) : M Unit := do
     yieldEv (.connectFail "request-failed")
   else do
     yieldConnected proxy
-    modS fun s => { s with selOpen := true }
+    modS fun s => { s with selOpen := sel }
     runLoopL l
 
 def runL (l : M Unit) : M Unit := do
@@ -35,7 +37,13 @@ def runL (l : M Unit) : M Unit := do
   match s.cfg.connect with
   | .socketFail => yieldEv (.connectFail "connect-failed")
   | .otherFail => yieldEv (.connectFail "connect-failed")
-  | .ok proxy => afterConnectL l proxy
+  | .ok proxy => afterConnectL l proxy true
+  | .selFail proxy => afterConnectL (throwE (.other "error")) proxy false
+
+theorem runLoopNoSel_eq_L : runLoopNoSel = runLoopL (throwE (.other "error")) := rfl
+
+theorem afterConnectNoSel_eq_L (proxy : Bool) :
+    afterConnectNoSel proxy = afterConnectL (throwE (.other "error")) proxy false := rfl
 
 theorem runBody_eq (env : List EnvStep) : runBody env = runBodyL (loop env) := rfl
 
@@ -98,22 +106,27 @@ theorem same_yieldConnected (proxy : Bool) : Spec Same (yieldConnected proxy) :=
       spec_bind same_po (same_of_step step_closeSocket) (fun _ => spec_throwE same_po _))
   · exact same_of_step (step_yieldEv _)
 
+theorem same_afterConnectL {l : M Unit} (hl : Spec Same l) (proxy sel : Bool) :
+    Spec Same (afterConnectL l proxy sel) := by
+  unfold afterConnectL
+  refine spec_bind same_po (spec_modS (fun _ => ⟨rfl, rfl⟩)) (fun _ => spec_getS_bind same_po (fun s =>
+    spec_bind same_po (same_of_step (step_write _ _)) (fun r => ?_)))
+  split
+  · exact spec_bind same_po (same_of_step step_closeSocket) (fun _ => same_of_step (step_yieldEv _))
+  · refine spec_bind same_po (same_yieldConnected _) (fun _ => spec_bind same_po (spec_modS (fun _ => ⟨rfl, rfl⟩)) (fun _ => ?_))
+    unfold runLoopL
+    refine spec_tryC same_po (spec_bind same_po ?_ (fun _ => same_selClose)) same_runFinally
+    unfold runBodyL
+    exact spec_bind same_po (spec_tryC same_po (spec_bind same_po hl (fun _ => spec_pure same_po _))
+      (fun _ => spec_pure same_po _)) (fun r => same_onLoopEnd r)
+
 theorem same_runL {l : M Unit} (hl : Spec Same l) : Spec Same (runL l) := by
   unfold runL
   refine spec_bind same_po (same_of_step (step_yieldEv _)) (fun _ => spec_getS_bind same_po (fun s => ?_))
   split
   · exact same_of_step (step_yieldEv _)
   · exact same_of_step (step_yieldEv _)
-  · unfold afterConnectL
-    refine spec_bind same_po (spec_modS (fun _ => ⟨rfl, rfl⟩)) (fun _ => spec_getS_bind same_po (fun s =>
-      spec_bind same_po (same_of_step (step_write _ _)) (fun r => ?_)))
-    split
-    · exact spec_bind same_po (same_of_step step_closeSocket) (fun _ => same_of_step (step_yieldEv _))
-    · refine spec_bind same_po (same_yieldConnected _) (fun _ => spec_bind same_po (spec_modS (fun _ => ⟨rfl, rfl⟩)) (fun _ => ?_))
-      unfold runLoopL
-      refine spec_tryC same_po (spec_bind same_po ?_ (fun _ => same_selClose)) same_runFinally
-      unfold runBodyL
-      exact spec_bind same_po (spec_tryC same_po (spec_bind same_po hl (fun _ => spec_pure same_po _))
-        (fun _ => spec_pure same_po _)) (fun r => same_onLoopEnd r)
+  · exact same_afterConnectL hl _ _
+  · exact same_afterConnectL (spec_throwE same_po _) _ _
 
 end Lomond.Core.Monitor
